@@ -67,7 +67,11 @@ def authChain (cfg : Cfg) (hdr : Bytes) : Decision :=
       | none => .unauthorized
       | some (u', p') => if u' = u ∧ p' = p then tokenStage cfg fields true else .unauthorized
 
-/-- `prefixChecker` + `http.StripPrefix(basePath, …)`; `path` is the URL path -/
+/-- `prefixChecker` + `http.StripPrefix(basePath, …)`; `path` is the URL path (`r.URL.Path`: percent-decoded, NOT
+    cleaned — net/http without a ServeMux hands dot segments and doubled slashes through as sent). The path is part of
+    the model's request only here: it selects API side / UI side by the literal prefix `/api`; `authChain` does not take
+    it (`C17_path_blind`). What the go-openapi router behind the chain does with the path is outside the model and is
+    covered by the real-server path stream of the check. -/
 def decide (cfg : Cfg) (path hdr : Bytes) : Decision :=
   if cfg.basePath ≠ [] ∧ path = [47] then .redirect
   else
